@@ -1,6 +1,49 @@
 //! C46 — benchmark result validation accepts exactly the persisted results; placeholder precedence.
 //!
-//! (header completed below after pinning; see the end of this comment for probes and deviations)
+//! One sub-command, two kinds of cases (weights 1 : 2 — a result case costs two sessions and a CSV round trip).
+//!
+//! **Results.** A table of 0–10 rows x 1–4 columns {BIGINT, DOUBLE, BOOLEAN, DATE, VARCHAR} with NULLs; text cells
+//! are biased to '', `NULL`, `(empty)`, near misses of those, the `|` delimiter, quotes, CR/LF, tabs, `#`, `--`,
+//! unicode. Two benchmark files are generated in a temp dir, both with `load` (CREATE TABLE + INSERT … VALUES on one
+//! physical line; CR/LF spliced in with chr()), `run SELECT c0,.. FROM t ORDER BY rid` and `result <dir>/result.csv`
+//! (every result file in the repository ends in `.csv`). Session 1: `SqlBenchmark::new` → `initialize` → `persist`
+//! on the table P; session 2 (fresh SessionContext, like a later process): `new` → `initialize` → `run(ctx,true)` →
+//! `verify` on the table Q — exactly what `sql_benchmark_runner::prepare_benchmark` does in its two modes.
+//! (P, Q) = (T, mutate(T)) or (mutate(T), T); mutate = none | one cell replaced by another generated cell | by one
+//! of NULL/''/'NULL'/'(empty)' | by a near miss of itself (blank added, case flipped, character dropped, trimmed,
+//! number off by one / negated, date ±1, boolean flipped) | row dropped / duplicated / appended | column dropped /
+//! added. target_partitions 1, 2 or 4. After `load` the harness checks that the engine holds the table of the case.
+//! Oracle: P = Q logically → `verify` must return Ok; a differing row count, a differing column count (when there
+//! are rows) or a differing cell that is not a documented equivalence → `verify` must return Err; differences that
+//! are only documented equivalences → either verdict (labelled, not claimed).
+//! Documented equivalences modelled (compare_results + its unit tests `assert_accepts_*`, nothing more): expected
+//! `NULL` ~ actual empty; expected `(empty)` ~ actual empty or NULL; NULL and the text `NULL` render alike; and a
+//! persisted empty string is an empty cell of the result file, which means NULL (the reason the `(empty)` marker
+//! exists) — so persisted '' ~ actual NULL/'NULL' as well. One-directional as in the code: persisted NULL vs actual
+//! `(empty)`, persisted 'a' vs actual NULL, etc. must be rejected.
+//!
+//! **Placeholders.** A template is constructed from literal text, `${K}`, `${K:-d}`, `${K|t|f}`, `${K:-d|t|f}`
+//! (the true branch may contain `${K2}` / `${K2:-d2}` — the documented nesting, unit test
+//! `process_replacements_resolves_variables_after_true_false_replacement`) over the keys vfc46_k0..k7 written in
+//! lower / upper / mixed case, and placed in a `run` query, a `load` query, `name` or `subgroup`. Sources: the
+//! caller's map (`new_with_replacements`, lower-case keys as the runner passes them), the process environment
+//! (VFC46_K0..K3 set, K4..K7 removed by `main` before any thread exists; constant per run), defaults. Oracle:
+//! reference substitution with precedence explicit > environment > default; only the value `true`
+//! (case-insensitive) selects the true branch; a key without any source must make parsing fail. Observed through
+//! `queries()`, `name()`, `subgroup()`, `replacement_mapping()`.
+//!
+//! Pinned while building (not a defect): DESIGN §9 item 6 suspected NULL / `NULL`-substring cells. The
+//! `null_regex("NULL")` passed to `read_csv` is only used for schema inference (datasource-csv never hands it to the
+//! scan decoder), so at scan time an empty cell is NULL and `xNULLy` stays text; unmutated results with NULLs, '',
+//! `NULL`, `(empty)`, `|`, quotes and newlines all verify.
+//!
+//! Deviations from DESIGN.md: mutations go through a second generated table (both directions) instead of editing
+//! the persisted file; floats are finite decimals and -0.0 is not generated (0.0 vs -0.0 is a debatable
+//! "difference"); a differing column count of a result WITHOUT rows is accepted by `verify` (it compares rows) and
+//! is not claimed either way; empty defaults / `|` inside simple defaults / variables in the FALSE branch are not
+//! generated (undocumented syntax: `${A|t|x${B}}` leaves a stray `}` when A is true).
+//!
+//! Sensitivity probes: see the end of this header.
 use arrow::array::{Array, AsArray};
 use arrow::datatypes::DataType;
 use datafusion::prelude::{SessionConfig, SessionContext};
@@ -155,7 +198,7 @@ fn text_cell() -> BoxedStrategy<String> {
         2 => prop::sample::select(vec!["é", "ß", "日本", "😀", "\u{301}", "\u{a0}", "\u{2028}"]).prop_map(|s| s.to_string()),
     ];
     let built = prop::collection::vec(piece, 1..5).prop_map(|v| v.concat());
-    prop_oneof![4 => special, 5 => built].boxed()
+    prop_oneof![2 => Just(String::new()), 1 => Just("NULL".to_string()), 1 => Just("(empty)".to_string()), 3 => special, 6 => built].boxed()
 }
 
 fn cell(ty: Ty) -> BoxedStrategy<CellV> {
@@ -183,7 +226,7 @@ fn table(tys: &[Ty], rows: std::ops::RangeInclusive<usize>) -> BoxedStrategy<Vec
 
 fn mutation() -> BoxedStrategy<Mutation> {
     prop_oneof![
-        3 => Just(Mutation::None),
+        5 => Just(Mutation::None),
         4 => (any::<u16>(), any::<u16>()).prop_map(|(row, col)| Mutation::Cell { row, col }),
         4 => (any::<u16>(), any::<u16>(), 0u8..4).prop_map(|(row, col, which)| Mutation::CellSpecial { row, col, which }),
         5 => (any::<u16>(), any::<u16>(), 0u8..6).prop_map(|(row, col, kind)| Mutation::CellTweak { row, col, kind }),
@@ -1067,7 +1110,7 @@ impl Property for C46 {
         prop_oneof![1 => res_case(tier), 2 => ph_case()].boxed()
     }
     fn budget(&self, tier: Tier) -> Budget {
-        Budget::new(tier.pick(3_000, 150_000), tier.pick(8, 16)).min_nontrivial(tier.pick(300, 15_000)).case_timeout(180)
+        Budget::new(tier.pick(2_000, 150_000), tier.pick(8, 16)).min_nontrivial(tier.pick(300, 15_000)).case_timeout(180)
     }
     fn rule(&self) -> String {
         "1:2 mix of result cases (0-10 rows x 1-4 typed columns loaded from VALUES by a generated benchmark file, persisted, then a possibly mutated table verified against the persisted file through SqlBenchmark) \
